@@ -286,8 +286,16 @@ def inline_ctor(eng, q, args, kwargs, e, st):
         info['inlined'] = True
         eng.functions.append(info)
     formal = [a.arg for a in node.args.args]
-    if len(args) != len(formal) - 1 or kwargs:
+    if node.args.vararg or node.args.kwarg or node.args.kwonlyargs or node.args.defaults or getattr(node.args, 'posonlyargs', None):
+        raise Unsupported('inline constructor %s: argument binding (defaults / *args / keyword-only parameters)' % q)
+    # positional arguments first, then keywords by name: every parameter bound exactly once (Python's rule for plain parameters)
+    bound = dict(zip(formal[1:], args))
+    if len(args) > len(formal) - 1 or any(k in bound or k not in formal[1:] for k in kwargs):
         raise Unsupported('inline constructor %s: argument binding' % q)
+    bound.update(kwargs)
+    if set(bound) != set(formal[1:]):
+        raise Unsupported('inline constructor %s: argument binding (missing %s)' % (q, sorted(set(formal[1:]) - set(bound))))
+    args = [bound[n] for n in formal[1:]]
     outer = eng.cur
     dummy = Contract.__new__(Contract)
     dummy.locals = {}
